@@ -693,6 +693,7 @@ type streamProfile struct {
 	wCommit, wFlush, wCompact, wRun, wBackup int
 	wKtl                                     int
 	nOps                                     int
+	longHist                                 bool // few keys that extend one another, one of them with a long version history
 }
 
 var streamKeys = func() [][]byte {
@@ -745,12 +746,19 @@ func (c *Ctx) randCfg(h *hist, keys [][]byte, mts uint64, backup bool) streamCfg
 func runStreamHistory(c *Ctx, p *streamProfile, idx int) (*hist, error) {
 	o := sysOpts{Managed: idx%4 == 3, Detect: false, NKeep: []int{1, 1, 3, 1 << 30}[c.Rng.Intn(4)], MaxLevels: 4,
 		VThreshold: 32, TableSize: int64(256) << uint(c.Rng.Intn(4)), BaseLevelSize: []int64{200, 600, 2 << 10, 8 << 10}[c.Rng.Intn(4)]}
+	if p.longHist {
+		o.NKeep = 1 << 30
+	}
 	h, err := newHist(c, o)
 	if err != nil {
 		return nil, err
 	}
 	defer h.close()
 	keys := append([][]byte{}, streamKeys[:4+c.Rng.Intn(len(streamKeys)-4)]...)
+	if p.longHist {
+		// a producer steps over every old version of "u" before it reaches the keys that extend it
+		keys = [][]byte{[]byte("u"), []byte("u"), []byte("u"), []byte("u"), []byte("u/1"), []byte("u0"), {'u', 0}, []byte("ux"), []byte("t"), []byte("v")}
+	}
 	// boundary: DB.Ranges uses INTERNAL keys (user key + 8-byte version suffix) as split points;
 	// user keys that are byte-equal to such a split key sit exactly on a range boundary
 	for j := 0; j < 6; j++ {
@@ -920,6 +928,9 @@ func runStreamProp(c *Ctx, mk func(i int) *streamProfile) error {
 func init() {
 	register("C25", func(c *Ctx) error {
 		return runStreamProp(c, func(i int) *streamProfile {
+			if i%4 == 2 {
+				return &streamProfile{name: "stream-long-history", wCommit: 16, wFlush: 3, wCompact: 2, wRun: 5, wBackup: 0, wKtl: 2, nOps: 40 + c.Rng.Intn(30), longHist: true}
+			}
 			return &streamProfile{name: "stream", wCommit: 10, wFlush: 5, wCompact: 4, wRun: 6, wBackup: 0, wKtl: 2, nOps: 20 + c.Rng.Intn(30)}
 		})
 	})
